@@ -26,13 +26,13 @@ import (
 // visible.
 type c13Chain struct {
 	beaconchain.Interface
-	signing chain.Signing
-	config  *beaconchain.Config
-	submits []map[group.MemberIndex][]byte
+	signing  chain.Signing
+	config   *beaconchain.Config
+	submits  []map[group.MemberIndex][]byte
 	submitBy []group.MemberIndex
 }
 
-func (c *c13Chain) Signing() chain.Signing          { return c.signing }
+func (c *c13Chain) Signing() chain.Signing         { return c.signing }
 func (c *c13Chain) GetConfig() *beaconchain.Config { return c.config }
 func (c *c13Chain) IsGroupRegistered([]byte) (bool, error) {
 	return false, nil
@@ -66,9 +66,9 @@ func (c *c13Channel) Send(_ context.Context, m net.TaggedMarshaler, _ ...net.Ret
 	c.sent = append(c.sent, m)
 	return nil
 }
-func (c *c13Channel) Recv(context.Context, func(net.Message))       {}
-func (c *c13Channel) SetUnmarshaler(func() net.TaggedUnmarshaler)   {}
-func (c *c13Channel) SetFilter(net.BroadcastChannelFilter) error    { return nil }
+func (c *c13Channel) Recv(context.Context, func(net.Message))     {}
+func (c *c13Channel) SetUnmarshaler(func() net.TaggedUnmarshaler) {}
+func (c *c13Channel) SetFilter(net.BroadcastChannelFilter) error  { return nil }
 
 type c13NetMessage struct {
 	payload interface{}
